@@ -7,7 +7,7 @@
        (C03_refuted_empty_extobj, known finding extobj-empty-struct: Value = &T{} re-encodes with body length 0, which
        decodes to Value = nil);
    (b) C03_partial_stable: for ANY registry satisfying reg_desc_ok / reg_min_ok and ANY descriptor satisfying desc_ok
-       (C03_registry: the generated ones do), any nesting budget, any input of at most MaxInt32 bytes (longer strings
+       (C03_registry: the generated ones do), any number of nesting levels (the second decode runs under the same limit: what the decoder returns is nested at most that deep, decode_depth), any input of at most MaxInt32 bytes (longer strings
        cannot be re-encoded): a successfully decoded value v which carries no empty-struct extension object body
        (noempty v: the complement of the refuted class) encodes again without error or panic, the re-encoding is not
        longer than the bytes the decoder consumed, and the re-encoding followed by ANY bytes decodes to v and leaves
@@ -20,7 +20,7 @@
 From Coq Require Import NArith ZArith List Bool Lia.
 From Coq.Strings Require Import Byte.
 From Opcua Require Import Model.CodecTypes Model.Codec Model.CodecEq Model.CodecWf Model.CodecWfAll Proofs.CodecBase Proofs.CodecRT
-  Proofs.CodecRoundtripAll Proofs.CodecDecWf Proofs.CodecDecLen Proofs.CodecTotal Gen.UaTypes.
+  Proofs.CodecRoundtripAll Proofs.CodecDecWf Proofs.CodecDecLen Proofs.CodecDecDepth Proofs.CodecTotal Gen.UaTypes.
 Import ListNotations.
 Open Scope Z_scope.
 
@@ -104,14 +104,15 @@ Theorem C03_partial_stable : forall reg fuel t bs v rest al,
   decode reg fuel t bs = Ok v rest al ->
   noempty v = true ->
   exists bs', encode reg t v = EOk bs' /\ (length bs' <= length bs - length rest)%nat /\
-    forall fuel' rest', (length bs' < fuel')%nat -> exists al', decode reg fuel' t (bs' ++ rest') = Ok v rest' al'.
+    forall fuel' rest', (fuel <= fuel')%nat -> exists al', decode reg fuel' t (bs' ++ rest') = Ok v rest' al'.
 Proof.
   intros reg fuel t bs v rest al Hreg Hmin Ht Hs E Hne.
   destruct (C03_decoded_wf reg fuel t bs v rest al Hreg Ht Hs E) as [_ Hn].
   destruct (C03_decoded_rwf reg fuel t bs v rest al Hreg Hmin Ht Hs E) as [Hw Hlen]. specialize (Hw Hne).
-  destruct (roundtrip_all reg t v Hw 0%nat) as [bs' [E' _]]. exists bs'. split; [exact E'|]. split; [apply Hlen; exact E'|].
-  intros fuel' rest' Hf. destruct (roundtrip_all reg t v Hw fuel') as [bs2 [E2 [_ D]]].
-  rewrite E' in E2. inversion E2; subst bs2. rewrite Hn in D. exact (D Hf rest').
+  pose proof (proj1 (decode_depth reg fuel t bs v rest al Hs E)) as Hd. unfold Dp in Hd.
+  destruct (roundtrip_all reg t v fuel Hw Hd 0%nat) as [bs' [E' _]]. exists bs'. split; [exact E'|]. split; [apply Hlen; exact E'|].
+  intros fuel' rest' Hf. destruct (roundtrip_all reg t v fuel' Hw ltac:(lia) (S (length bs'))) as [bs2 [E2 [_ D]]].
+  rewrite E' in E2. inversion E2; subst bs2. rewrite Hn in D. exact (D (Nat.lt_succ_diag_r _) rest').
 Qed.
 
 (* in the shape of the statement, at the generated registry and descriptors *)
